@@ -640,6 +640,11 @@ def generated_labels(seed, n_ascii, n_utf8, n_odl):
     g = G.Gen(rng, profile="odl", multiline=False, comments=True)
     for _ in range(n_odl):
         out.append((g.label()[0], "gen-odl", rng.randrange(1 << 30)))
+    # hand-written: a line that consists of END alone inside a multi-line quoted string / comment is not the END statement
+    for text, kind in (('NOTE = "first line\nEND\nlast line"\na = 1\nEND\n', "hand-END-line-inside-string"),
+                       ('a = 1\n/* a comment\nEnd\n   goes on */\nb = (1,\n 2)\nEND\n', "hand-END-line-inside-comment"),
+                       ("d = 'x\n  end  \ny'\nEND\n", "hand-end-line-inside-symbol")):
+        out.append((text, kind, rng.randrange(1 << 30)))
     return out
 
 
